@@ -179,8 +179,8 @@ theorem operatorPhase_tok (ops : List Op) (fns : List Bytes) (pre rest : Bytes) 
         rw [hs] at h
         injection h with h; subst h
         simp [advance_sym]
-      | err => rw [hs] at h; exact R.noConfusion h
-      | panic => rw [hs] at h; exact R.noConfusion h
+      | err => simp [hs] at h
+      | panic => simp [hs] at h
 
 /-- side conditions on the operator table used by the lexing lemmas -/
 structure TableOK (ops : List Op) : Prop where
@@ -205,8 +205,12 @@ theorem noE_rev (s p : Bytes) (h : NoE p) (hs : s.getLast? ≠ some 101) : NoE (
   | nil => simpa using h
   | cons a t =>
     unfold NoE
-    rw [List.head?_append_of_ne_nil _ (by simp), List.head?_reverse]
-    exact hs
+    have hh : ((a :: t).reverse ++ p).head? = (a :: t).getLast? := by
+      rw [List.head?_append, List.head?_reverse]
+      cases hg : (a :: t).getLast? with
+      | none => simp at hg
+      | some v => rfl
+    rw [hh]; exact hs
 
 theorem blank_last (b : Bytes) (hb : Blank b) : b.getLast? ≠ some 101 := by
   intro h
@@ -280,7 +284,7 @@ theorem loop_opd_end (ops : List Op) (fns : List Bytes) (hT : TableOK ops) (b x 
     rw [List.cons_append, parseLoop_step _ _ _ _ _ _ _ _ hc]
     unfold scanStep
     rw [← List.cons_append, hno]
-    simp [htrim, contLoop]
+    simp only [htrim, contLoop, List.cons_ne_nil, if_false]
 
 /-- loop head, blanks, an atom, blanks, an operator symbol -/
 theorem loop_opd_sym (ops : List Op) (fns : List Bytes) (hT : TableOK ops) (b x b2 : Bytes) (hb : Blank b)
@@ -317,6 +321,127 @@ theorem loop_opd_sym (ops : List Op) (fns : List Bytes) (hT : TableOK ops) (b x 
     rw [this]
     simp only [contLoop]
     have hlen : rest.length < (t ++ (b2 ++ (o.sym ++ rest))).length + 1 := by simp; omega
-    simp [hlen]
+    rw [if_pos hlen]
+
+
+/-! ### rendering a token list in a blank layout, and the bridge -/
+
+def Tok.bytes : Tok → Bytes
+  | .opd x => x
+  | .sym o => o.sym
+
+/-- `ws k` is the run of blanks before token number `k` (after the last token for `k` = number of tokens) -/
+def render (ws : Nat → Bytes) : Nat → List Tok → Bytes
+  | k, [] => ws k
+  | k, t :: ts => ws k ++ (t.bytes ++ render ws (k + 1) ts)
+
+/-- side conditions on the operator table for the symbol lookup: at the first byte of a symbol the table order finds
+    that operator unless the next byte is `=` (`!`/`!=`, `<`/`<=`, `>`/`>=`; a closing parenthesis is never
+    ambiguous); `=` starts a symbol (so it is not an atom byte); no unary operator starts with `=`; no symbol ends
+    in `e` -/
+structure LexTable (ops : List Op) : Prop extends TableOK ops where
+  fm : ∀ o ∈ ops, ∀ pre rest, NoE pre → (o.sym = RP ∨ rest.head? ≠ some 61) → firstMatch ops pre (o.sym ++ rest) = some o
+  eq61 : startsOp ops 61 = true
+  un61 : ∀ u ∈ ops, u.un = true → u.sym.head? ≠ some 61
+  lastE : ∀ o ∈ ops, o.sym.getLast? ≠ some 101
+
+/-- the next token does not start with `=` -/
+def NextNot61 : List Tok → Prop
+  | [] => True
+  | t :: _ => t.bytes ≠ [] ∧ t.bytes.head? ≠ some 61
+
+/-- what the lexing layer needs of a token list: operands are atoms and are followed by an operator symbol or the
+    end; an operator symbol other than `)` is not followed by a token starting with `=` -/
+def LexOK (ops : List Op) : List Tok → Prop
+  | [] => True
+  | .opd x :: ts => AtomOK ops x ∧ (ts = [] ∨ ∃ o ts', ts = .sym o :: ts') ∧ LexOK ops ts
+  | .sym o :: ts => o ∈ ops ∧ (o.sym = RP ∨ NextNot61 ts) ∧ LexOK ops ts
+
+theorem blank_not61 (b s : Bytes) (hb : Blank b) (hs : s.head? ≠ some 61) : (b ++ s).head? ≠ some 61 := by
+  cases b with
+  | nil => simpa using hs
+  | cons c t =>
+    have := hb c (by simp)
+    simp only [List.cons_append, List.head?_cons, ne_eq, Option.some.injEq]
+    intro h; subst h; simp [isScanSpace] at this
+
+theorem render_not61 (ws : Nat → Bytes) (hws : ∀ k, Blank (ws k)) (k : Nat) (ts : List Tok) (h : NextNot61 ts) :
+    (render ws k ts).head? ≠ some 61 := by
+  cases ts with
+  | nil =>
+    have := blank_not61 (ws k) [] (hws k) (by simp)
+    simpa [render] using this
+  | cons t ts =>
+    simp only [render]
+    apply blank_not61 _ _ (hws k)
+    obtain ⟨h1, h2⟩ := h
+    cases hb : t.bytes with
+    | nil => exact absurd hb h1
+    | cons c r => rw [hb] at h2; simpa using h2
+
+theorem runToks_cons_ok (m m' : MSt) (t : Tok) (ts : List Tok) (h : runToks m (t :: ts) = .ok m') :
+    ∃ m1, stepTok m t = .ok m1 ∧ runToks m1 ts = .ok m' := by
+  simp only [runToks] at h
+  cases hs : stepTok m t with
+  | ok m1 => rw [hs] at h; exact ⟨m1, rfl, h⟩
+  | err => simp [hs] at h
+  | panic => simp [hs] at h
+
+/-- **the bridge**: if the token machine accepts a lexable token list, the character-level scan loop run on any blank
+    layout of it ends with the same stacks -/
+theorem parseLoop_render (ops : List Op) (fns : List Bytes) (hL : LexTable ops) (ws : Nat → Bytes)
+    (hws : ∀ k, Blank (ws k)) :
+    ∀ (ts : List Tok) (k : Nat) (m m' : MSt) (pre : Bytes), NoE pre → LexOK ops ts → runToks m ts = .ok m' →
+      parseLoop ops fns pre (render ws k ts) m.st m.hv m.un = .ok m'.st := by
+  intro ts
+  have hT : TableOK ops := hL.toTableOK
+  induction ts with
+  | nil =>
+    intro k m m' pre _ _ hrun
+    simp only [runToks] at hrun
+    injection hrun with hrun; subst hrun
+    have := parseLoop_blanks ops fns (ws k) (hws k) pre [] m.st m.hv m.un
+    simp only [List.append_nil] at this
+    simp only [render, this, parseLoop_nil]
+  | cons t ts ih =>
+    intro k m m' pre hpre hlex hrun
+    obtain ⟨m1, hstep, hrest⟩ := runToks_cons_ok m m' t ts hrun
+    cases t with
+    | sym o =>
+      obtain ⟨ho, hnb, hlex'⟩ := hlex
+      have hlast := hL.lastE o ho
+      have hfm : ∀ pre, NoE pre → firstMatch ops pre (o.sym ++ render ws (k + 1) ts) = some o := fun p hp =>
+        hL.fm o ho p _ hp (hnb.elim Or.inl (fun h => Or.inr (render_not61 ws hws _ _ h)))
+      have hpre1 : NoE ((ws k).reverse ++ pre) := noE_rev _ _ hpre (blank_last _ (hws k))
+      simp only [render, Tok.bytes]
+      rw [loop_sym ops fns hT (ws k) (hws k) pre _ o ho m m1 (hfm _ hpre1) hstep]
+      exact ih (k + 1) m1 m' _ (noE_rev _ _ hpre1 hlast) hlex' hrest
+    | opd x =>
+      obtain ⟨hx, hnext, hlex'⟩ := hlex
+      have hm1 : m1 = ⟨pushOperand m.st m.un x, true, none⟩ := by
+        simp only [stepTok] at hstep; injection hstep with hstep; exact hstep.symm
+      rcases hnext with hnil | ⟨o, ts', hts⟩
+      · subst hnil
+        simp only [runToks] at hrest
+        injection hrest with hrest; subst hrest
+        simp only [render, Tok.bytes]
+        rw [loop_opd_end ops fns hT (ws k) x (ws (k + 1)) (hws k) hx (hws (k + 1))]
+        rw [hm1]
+      · subst hts
+        subst hm1
+        obtain ⟨m2, hstep2, _⟩ := runToks_cons_ok _ m' (.sym o) ts' hrest
+        have hpre1 : NoE ((ws k).reverse ++ pre) := noE_rev _ _ hpre (blank_last _ (hws k))
+        have hpre2 : NoE (x.reverse ++ ((ws k).reverse ++ pre)) := noE_rev _ _ hpre1 hx.2.2
+        have hpre3 : NoE ((ws (k + 1)).reverse ++ (x.reverse ++ ((ws k).reverse ++ pre))) :=
+          noE_rev _ _ hpre2 (blank_last _ (hws (k + 1)))
+        have key := ih (k + 1) _ m' _ hpre2 hlex' hrest
+        obtain ⟨ho, hnb, _⟩ := hlex'
+        have hfm : ∀ pre, NoE pre → firstMatch ops pre (o.sym ++ render ws (k + 1 + 1) ts') = some o := fun p hp =>
+          hL.fm o ho p _ hp (hnb.elim Or.inl (fun h => Or.inr (render_not61 ws hws _ _ h)))
+        simp only [render, Tok.bytes] at key ⊢
+        rw [loop_sym ops fns hT (ws (k + 1)) (hws (k + 1)) _ _ o ho _ m2 (hfm _ hpre3) hstep2] at key
+        rw [loop_opd_sym ops fns hT (ws k) x (ws (k + 1)) (hws k) hx (hws (k + 1)) pre _ o ho m.st m.hv m.un m2
+          (hfm _ hpre3) hstep2]
+        exact key
 
 end Eval
